@@ -158,7 +158,8 @@ class RepetitionExperimentKernel(IStabilizerIndexingKernel):
     def indexing_kernels(self) -> List[IIndexingKernel]:
         """:return: Array-like of ordered indexing kernels that describe self."""
         repetition_kernels: List[IIndexingKernel] = self._repetition_kernels
-        calibration_kernel: List[IIndexingKernel] = [self._calibration_kernel]
+        # Calibration points are only part of the (experiment) cycle if they are included
+        calibration_kernel: List[IIndexingKernel] = [self._calibration_kernel] if self._qutrit_calibration_points else []
         result: List[IIndexingKernel] = repetition_kernels + calibration_kernel
         return result
     # endregion
@@ -209,6 +210,9 @@ class RepetitionExperimentKernel(IStabilizerIndexingKernel):
         :param state: Identifier for state specific selectivity.
         :return: Tensor of indices pointing at all projection acquisition within calibration points.
         """
+        # Guard clause, if calibration points are not included, return empty array
+        if not self._qutrit_calibration_points:
+            return np.asarray([], dtype=np.int_)
         if state == StateKey.STATE_0:
             single_cycle_indices: List[int] = self._calibration_kernel.get_state_0_measurement_index(element=qubit_id)
         elif state == StateKey.STATE_1:
@@ -225,6 +229,9 @@ class RepetitionExperimentKernel(IStabilizerIndexingKernel):
         :param state: Identifier for state specific selectivity.
         :return: Tensor of indices pointing at all heralded acquisition before calibration points.
         """
+        # Guard clause, if calibration points are not included, return empty array
+        if not self._qutrit_calibration_points:
+            return np.asarray([], dtype=np.int_)
         if state == StateKey.STATE_0:
             single_cycle_indices: List[int] = self._calibration_kernel.get_heralded_state_0_measurement_index(element=qubit_id)
         elif state == StateKey.STATE_1:
